@@ -177,6 +177,17 @@ Definition sum_hits (is_char : Z -> bool) (want_char : bool) (tr : list ev) : fl
                           | VHitEnd _ d t _ => if Bool.eqb (is_char d) want_char then PrimFloat.add acc t else acc
                           | _ => acc end) tr 0%float.
 
+Definition sum_abs_hits (is_char : Z -> bool) (want_char : bool) (tr : list ev) : float :=
+  fold_left (fun acc e => match e with
+                          | VHitEnd _ d t _ => if Bool.eqb (is_char d) want_char then PrimFloat.add acc (PrimFloat.abs t) else acc
+                          | _ => acc end) tr 0%float.
+
+(* "equals the sum of the hits": bit-equal to the sum in log order, or - the statistics subscriber sees
+   nested hits (a HitEnd listener that attacks) in another order than they are logged, and binary64
+   addition is not associative - equal up to rounding: within 2^-40 of the sum of the magnitudes *)
+Definition sum_close (a b scale : float) : bool :=
+  feqb_bits a b || PrimFloat.leb (PrimFloat.abs (PrimFloat.sub a b)) (PrimFloat.mul scale 0x1p-40%float).
+
 Fixpoint nondecreasing (l : list float) : bool :=
   match l with
   | x :: ((y :: _) as r) => PrimFloat.leb x y && nondecreasing r
@@ -190,8 +201,8 @@ Definition result_ok (nchars nunits : Z) (tr : list ev) (r : result) (av : float
   let known := fun e => match e with VHitEnd _ d _ _ => (1 <=? d) && (d <=? nunits) | _ => true end in
   let tr' := filter known tr in
   let is_c := fun id => id <=? nchars in
-  feqb_bits (r_dealt r) (sum_hits is_c false tr') &&
-  feqb_bits (r_taken r) (sum_hits is_c true tr') &&
+  sum_close (r_dealt r) (sum_hits is_c false tr') (sum_abs_hits is_c false tr') &&
+  sum_close (r_taken r) (sum_hits is_c true tr') (sum_abs_hits is_c true tr') &&
   nondecreasing (r_dealt_cyc r) && nondecreasing (r_taken_cyc r) &&
   Nat.eqb (length (r_dealt_cyc r)) (length (r_taken_cyc r)) &&
   feqb_bits (last_f (r_dealt_cyc r)) (r_dealt r) && feqb_bits (last_f (r_taken_cyc r)) (r_taken r) &&
